@@ -88,6 +88,11 @@ type World struct {
 	lastT   Value
 	Trace   bool // allow symbolic paths (events only)
 	TraceStatSeq string // trace mode: scripted os.Stat outcomes ("0"/"1" per call)
+	// trace mode, rule-based os.Stat: a symbolic path exists iff something created it in
+	// this trace, or it lies in the task's temp dir and the command has run
+	TraceRuleTmp  string
+	traceMade     map[string]bool
+	traceExecSeen bool
 	TraceStatFork bool // trace mode: os.Stat outcome is a symbolic boolean
 	WalkExtra []Value // trace mode: files visited by filepath.Walk
 	CmdExitFree bool  // vcmd exit status symbolic (default true)
@@ -288,6 +293,29 @@ func (m *Machine) fsStat(pv Value) (Value, Value) {
 			m.unsupported("os.Stat on symbolic path outside trace mode")
 		}
 		w.event(m, "stat", pv)
+		// trace mode, rule-based (independent of how many stat calls the code makes)
+		if w.TraceRuleTmp != "" {
+			exists := false
+			var kb strings.Builder
+			if m.valueKey(pv, &kb, 0) && w.traceMade[kb.String()] {
+				exists = true
+			} else if st, isS := pv.(*sym.Str); isS && w.traceExecSeen {
+				pre := w.TraceRuleTmp + "/"
+				if len(st.Ch) >= len(pre) {
+					exists = true
+					for i := 0; i < len(pre); i++ {
+						if !st.Ch[i].IsConst() || byte(st.Ch[i].Val) != pre[i] {
+							exists = false
+							break
+						}
+					}
+				}
+			}
+			if exists {
+				return Iface{T: m.extType("fileinfo"), V: &Ext{Kind: "fileinfo", F: map[string]Value{"isdir": false, "name": pv}}}, Iface{}
+			}
+			return Iface{}, m.errVal("ENOENT", "stat: no such file or directory")
+		}
 		// trace mode: scripted outcome, else absent unless the harness asks for a symbolic outcome
 		if len(w.TraceStatSeq) > 0 {
 			ex := w.TraceStatSeq[0] == '1'
@@ -328,6 +356,7 @@ func (m *Machine) fsMkdirAll(pv Value) Value {
 		}
 		m.crashPoint("mkdirall")
 		w.event(m, "mkdirall", pv)
+		w.traceMake(m, pv, true)
 		return Iface{}
 	}
 	m.crashPoint("mkdirall " + p)
@@ -392,6 +421,8 @@ func (m *Machine) fsRename(fv, tv Value) Value {
 		}
 		m.crashPoint("rename")
 		w.event(m, "rename", fv, tv)
+		w.traceMake(m, fv, false)
+		w.traceMake(m, tv, true)
 		return Iface{}
 	}
 	m.crashPoint("rename " + from + " -> " + to)
@@ -437,6 +468,7 @@ func (m *Machine) fsRemove(pv Value, all bool) Value {
 		}
 		m.crashPoint("remove")
 		w.event(m, "remove", pv)
+		w.traceMake(m, pv, false)
 		return Iface{}
 	}
 	op := "remove"
@@ -500,6 +532,7 @@ func (m *Machine) fsWriteFile(pv Value, data Value, origin string) Value {
 		}
 		m.crashPoint("write")
 		w.event(m, "write", pv)
+		w.traceMake(m, pv, true)
 		return Iface{}
 	}
 	m.crashPoint("write " + p)
@@ -635,6 +668,7 @@ func (m *Machine) runShell(script Value) Value {
 		}
 		m.crashPoint("exec")
 		w.event(m, "exec", script)
+		w.traceExecSeen = true
 		return Iface{}
 	}
 	m.crashPoint("exec " + s)
@@ -970,4 +1004,19 @@ func deepCopy(v Value) Value {
 		return Iface{T: x.T, V: deepCopy(x.V)}
 	}
 	return v
+}
+
+// traceMake records that a symbolic path was created / removed in trace mode.
+func (w *World) traceMake(m *Machine, pv Value, made bool) {
+	if w.traceMade == nil {
+		w.traceMade = map[string]bool{}
+	}
+	var kb strings.Builder
+	if m.valueKey(pv, &kb, 0) {
+		if made {
+			w.traceMade[kb.String()] = true
+		} else {
+			delete(w.traceMade, kb.String())
+		}
+	}
 }
